@@ -28,7 +28,7 @@ def fl(xs):
 
 
 HEADER = '''From Coq Require Import ZArith List Bool PrimFloat.
-From Pymoto Require Import Base.Num Base.Cmp Base.PyFloat Model.Concat Model.OC.
+From Pymoto Require Import Base.Num Base.Cmp Base.PyFloat Model.MMAvars Model.Concat Model.OC.
 Import ListNotations.
 Open Scope float_scope.
 (* arrays hold floats *)
@@ -68,6 +68,22 @@ Definition run_ok (pr : @oc_params pynum) (maxvol : option pynum) (vars : list (
       | _ => (err =? 0)%Z && hist_eqb (map snd (designs t)) exp_states && bools_eqb (warns t) exp_warns
              && states_eqb (final_states t) exp_final
       end
+  end.
+(* pymoto.utils._concatenate_to_array on the initial states with their dtypes (typed model of Model/MMAvars.v): dtype of the
+   result, values (converted to float64: exact for the integers and float32 numbers used), cumulative indices *)
+Definition convP (src dst : MMAvars.dtype) (x : pynum) : pynum :=
+  match dst with MMAvars.F32 | MMAvars.F64 => PFlt (py_float x) | _ => x end.
+Definition dtype_eqb (a b : MMAvars.dtype) : bool :=
+  match a, b with
+  | MMAvars.I32, MMAvars.I32 | MMAvars.I64, MMAvars.I64 | MMAvars.F32, MMAvars.F32 | MMAvars.F64, MMAvars.F64 => true
+  | _, _ => false
+  end.
+Definition TS (dt : MMAvars.dtype) (x : pynum) : MMAvars.tstate pynum := MMAvars.TVal dt (MMAvars.Scal x).
+Definition TA (dt : MMAvars.dtype) (l : list pynum) : MMAvars.tstate pynum := MMAvars.TVal dt (MMAvars.Arr l).
+Definition tconcat_ok (states : list (MMAvars.tstate pynum)) (err : bool) (r_dt : MMAvars.dtype) (r_vals : list float) (r_cum : list nat) : bool :=
+  match MMAvars.concat_to_array_t convP states with
+  | None => err
+  | Some (v, c) => negb err && dtype_eqb (fst v) r_dt && pnl_eqb (snd v) (F r_vals) && list_eqb Nat.eqb c r_cum
   end.
 (* the flat design at every response is the concatenation of the signal states (write-back) *)
 Definition flat_ok (pr : @oc_params pynum) (maxvol : option pynum) (vars : list (pstate pynum))
@@ -129,14 +145,49 @@ def psl(cs):
     return '[' + '; '.join(ps(c) for c in cs) + ']'
 
 
+# the Python / numpy kind in which an initial state is handed over (key 'num' of a variable description; default: floats)
+NUM_TAG = dict(pyfloat='F64', f64='F64', pyint='I64', i64='I64', i32='I32', f32='F32')
+NUM_NP = dict(f64=np.float64, i64=np.int64, i32=np.int32, f32=np.float32)
+INT_NUMS = ('pyint', 'i64', 'i32')
+
+
 def build_state(v):
     """problem variable description -> initial Signal state"""
     if v['kind'] == 'none':
         return None
+    num = v.get('num')
     if v['kind'] == 'scalar':
-        return float(v['value'])
-    a = np.array(v['value'], dtype=float)
+        if num in (None, 'pyfloat'):
+            return float(v['value'])
+        r = int(v['value']) if num == 'pyint' else NUM_NP[num](v['value'])
+        assert float(r) == float(v['value']), v
+        return r
+    a = np.array(v['value'], dtype=NUM_NP[num or 'f64'])
+    assert np.array_equal(a.astype(float), np.array(v['value'], dtype=float)), v
     return a
+
+
+def ps_var(v):
+    """initial state as the model sees it: integers stay integers (PInt), everything else is a binary64 number"""
+    if v['kind'] == 'none':
+        return 'PNone'
+    is_int = v.get('num') in INT_NUMS
+    one = (lambda t: f'(PInt ({int(t)}))') if is_int else (lambda t: f'(PFlt {fhex(t)})')
+    if v['kind'] == 'scalar':
+        return f'(PScalar {one(v["value"])})'
+    return '(PArray [' + '; '.join(one(t) for t in np.array(v['value'], dtype=float).ravel()) + '])'
+
+
+def ts_var(v):
+    """initial state with its dtype tag for the typed concatenation model"""
+    if v['kind'] == 'none':
+        return 'MMAvars.TNone'
+    tag = 'MMAvars.' + NUM_TAG[v.get('num') or ('pyfloat' if v['kind'] == 'scalar' else 'f64')]
+    is_int = v.get('num') in INT_NUMS
+    one = (lambda t: f'(PInt ({int(t)}))') if is_int else (lambda t: f'(PFlt {fhex(t)})')
+    if v['kind'] == 'scalar':
+        return f'(TS {tag} {one(v["value"])})'
+    return f'(TA {tag} [' + '; '.join(one(t) for t in np.array(v['value'], dtype=float).ravel()) + '])'
 
 
 def run_impl(pym, prob):
@@ -256,8 +307,10 @@ def flat_x0(prob):
     return np.array(out, dtype=float)
 
 
-def gen_problem(rng, cls, thorough):
-    """cls: 'small' (n <= 7), 'large' (8 <= n), 'malformed'"""
+def gen_problem(rng, cls, thorough, state_nums=None):
+    """cls: 'small' (n <= 7), 'large' (8 <= n), 'malformed';
+    state_nums: None (floats: Python float / float64 arrays) | 'int' (Python int, np.int64 / np.int32 scalars and arrays) |
+                'f32' | 'mixed' (every signal draws its own kind)"""
     nv = int(rng.integers(1, 5))
     vars_ = []
     if cls == 'large':
@@ -281,6 +334,19 @@ def gen_problem(rng, cls, thorough):
             if s == 4 and rng.random() < 0.3:
                 val = val.reshape(2, 2)
             vars_.append(dict(kind='array', value=val.tolist()))
+    if state_nums is not None:
+        for v in vars_:
+            fam = dict(int=(('pyint', 'i64', 'i32'), ('i64', 'i32')), f32=(('f32',), ('f32',)),
+                       mixed=(('pyfloat', 'pyint', 'f64', 'i64', 'i32', 'f32'), ('f64', 'i64', 'i32', 'f32')))[state_nums]
+            v['num'] = str(rng.choice(fam[0 if v['kind'] == 'scalar' else 1]))
+            shp = np.shape(v['value'])
+            if v['num'] in INT_NUMS:            # integer designs 1 or 2 (the box is widened below)
+                val = rng.integers(1, 3, size=shp if shp else None).astype(float)
+            elif v['num'] == 'f32':             # float32 numbers
+                val = np.round(np.array(v['value'], dtype=float) * 64) / 64
+            else:
+                val = np.array(v['value'], dtype=float)
+            v['value'] = val.tolist() if shp else float(val)
     prob = dict(vars=vars_)
     x0 = flat_x0(prob)
     n = x0.size
@@ -300,11 +366,16 @@ def gen_problem(rng, cls, thorough):
     else:
         params['xmin'] = np.round(np.minimum(x0, rng.uniform(0.01, 0.3, n)), 3).tolist()
         params['xmax'] = np.round(np.maximum(x0, rng.uniform(0.7, 1.5, n)), 3).tolist()
+        if state_nums is not None:       # float32 starting values have more than three decimals: keep them inside the box
+            params['xmin'] = np.minimum(params['xmin'], x0).tolist()
+            params['xmax'] = np.maximum(params['xmax'], x0).tolist()
     if kind in ('inv', 'pow') and 'xmin' not in params:
         params['xmin'] = 0.01
         params['xmax'] = 1.0
     if kind in ('inv', 'pow') and not isinstance(params['xmin'], list) and params['xmin'] == 0.0:
         params['xmin'] = 0.01
+    if state_nums is not None and not isinstance(params.get('xmax', 1.0), list) and params.get('xmax', 1.0) < x0.max():
+        params['xmax'] = float(x0.max() + rng.choice([0.0, 0.5, 1.0]))       # integer designs start inside the box
     if rng.random() < 0.8:
         params['move'] = float(rng.choice([0.05, 0.1, 0.2, 0.5, 0.0]))
     mv = params.get('move', 0.2)
@@ -476,15 +547,101 @@ def oracle(ctx, prob, rec, hits):
             return
     if gaps:
         ctx.extra['observed_max_volume_gap'] = max(ctx.extra.get('observed_max_volume_gap', 0.0), max(gaps))
-    # convergence to the analytic optimum for sum c_i/x_i when it is interior
+    # convergence to the analytic optimum of  min sum c_i/x_i  s.t.  sum x = maxvol, xmin <= x <= xmax:
+    # x_i = clip(sqrt(c_i/lambda), xmin_i, xmax_i); interior optimum: x = maxvol*sqrt(c)/sum(sqrt(c))
     if prob.get('convergence_check'):
         c = np.array(prob['c'], dtype=float)
-        xs = maxvol * np.sqrt(c) / np.sum(np.sqrt(c))
+        xs = analytic_optimum(c, maxvol, xmin, xmax)
         dist = float(np.abs(final - xs).max())
         ctx.extra['observed_max_distance_to_optimum'] = max(ctx.extra.get('observed_max_distance_to_optimum', 0.0), dist)
         ctx.count('oracle:convergence checked')
+        ctx.count('oracle:convergence checked:' + prob.get('start', 'start feasible'))
+        icls = prob.get('start', 'well-formed problem')
+        vgap = abs(float(np.sum(final)) - maxvol)
         if dist > 2e-3:
-            hits.append((info, 'converges to the analytic optimum', f'final design {final.tolist()} is {dist} away from {xs.tolist()}'))
+            stop = ('the objective test' if len(rec['states']) == len(rec['sens']) + 1 else
+                    'maxit' if len(rec['states']) == p['maxit'] else 'the step-size test')
+            hits.append((info, 'converges to the analytic optimum',
+                         f'the run stopped after {len(rec["states"])} response() calls (by {stop}; tolf={p["tolf"]}, tolx={p["tolx"]}, '
+                         f'maxit={p["maxit"]}) at volume {float(np.sum(final))} (maxvol {maxvol}); final design {final.tolist()} is {dist} '
+                         f'away from the analytic optimum {xs.tolist()}; objective values {rec["fs"]}', icls))
+        elif vgap > 1e-3 * max(1.0, abs(maxvol)):
+            hits.append((info, 'volume equals maxvol when reachable',
+                         f'final design has volume {float(np.sum(final))}, maxvol {maxvol} is attainable inside the box', icls))
+
+
+def analytic_optimum(c, V, xmin, xmax):
+    """KKT point of min sum c_i/x_i s.t. sum x = V, xmin <= x <= xmax (V attainable): x_i = clip(sqrt(c_i/lam), ...)"""
+    c = np.asarray(c, dtype=float)
+    xs = V * np.sqrt(c) / np.sum(np.sqrt(c))
+    if (xs >= xmin).all() and (xs <= xmax).all():
+        return xs
+
+    def vol(lam):
+        return float(np.sum(np.clip(np.sqrt(c / lam), xmin, xmax)))
+    a, b = 1e-12, 1e12                      # vol is non-increasing in lam
+    for _ in range(400):
+        m = math.sqrt(a * b) if b / a > 4 else 0.5 * (a + b)
+        if vol(m) > V:
+            a = m
+        else:
+            b = m
+    return np.clip(np.sqrt(c / (0.5 * (a + b))), xmin, xmax)
+
+
+def split_vars(rng, x0, layout):
+    """distribute the flat start design over 1..4 variable signals (arrays, scalars, a 2-D array)"""
+    n = x0.size
+    if layout == 'one' or n == 1:
+        return [dict(kind='array', value=x0.tolist())]
+    if layout == 'scalars+array' and n >= 3:
+        return [dict(kind='scalar', value=float(x0[0])), dict(kind='array', value=x0[1:n - 1].tolist()),
+                dict(kind='scalar', value=float(x0[n - 1]))]
+    if layout == 'four' and n >= 6:
+        return [dict(kind='array', value=x0[:1].tolist()), dict(kind='array', value=x0[1:5].reshape(2, 2).tolist()),
+                dict(kind='scalar', value=float(x0[5]))] + ([dict(kind='array', value=x0[6:].tolist())] if n > 6 else [])
+    k = max(1, n // 3)
+    parts = [x0[:k], x0[k:2 * k], x0[2 * k:]] if layout == 'three' and n >= 3 else [x0[:k], x0[k:]]
+    return [dict(kind='array', value=q.tolist()) for q in parts if q.size]
+
+
+def convergence_stress(rng):
+    """deliberately chosen separable problems sum c_i/x_i (every run; c drawn from the seed): the start is infeasible
+    (volume ABOVE maxvol: the move-limited steps must shrink the design and the objective necessarily RISES before the
+    optimum is reached; or below maxvol), the objective / step tests are disabled (tolf = 0, tolx = 0) or left at their
+    defaults, the optimum is interior or clipped by per-variable bounds, 1..4 variable signals"""
+    out = []
+    layouts = ['one', 'two', 'three', 'scalars+array', 'four']
+    k = 0
+    for start, frac0, fracV in (('start above maxvol', 0.5, 0.3), ('start above maxvol', 0.8, 0.35), ('start above maxvol', 0.6, 0.5),
+                                ('start below maxvol', 0.2, 0.45), ('start below maxvol', 0.35, 0.6), ('start feasible', 0.4, 0.4)):
+        for move in (0.05, 0.2):
+            for tol in ('default', 'tolf=0', 'tolf=0,tolx=0', 'tight'):
+                k += 1
+                n = (6, 3, 8, 5, 2, 7)[k % 6]
+                for _ in range(50):
+                    c = np.round(rng.uniform(1.0, 9.0, n), 2)
+                    V = float(np.round(fracV * n, 3))
+                    xs = V * np.sqrt(c) / np.sum(np.sqrt(c))
+                    if 0.05 < xs.min() and xs.max() < 0.95:
+                        break
+                x0 = np.full(n, frac0) if k % 3 else np.round(frac0 + rng.uniform(-0.1, 0.1, n), 2)
+                params = dict(xmin=0.01, xmax=1.0, maxvol=V, move=move, maxit=100)
+                if tol == 'tolf=0':
+                    params.update(tolf=0.0, tolx=1e-6)
+                elif tol == 'tolf=0,tolx=0':
+                    params.update(tolf=0.0, tolx=0.0, maxit=40)
+                elif tol == 'tight':
+                    params.update(tolf=1e-12, tolx=1e-7)
+                if k % 4 == 0:          # per-variable bounds that clip the optimum of the largest / smallest c
+                    xmin, xmax = np.full(n, 0.01), np.full(n, 1.0)
+                    xmax[int(np.argmax(c))] = float(np.round(0.8 * xs.max(), 3))
+                    xmin[int(np.argmin(c))] = float(np.round(1.2 * xs.min(), 3))
+                    x0 = np.clip(x0, xmin, xmax)
+                    params.update(xmin=xmin.tolist(), xmax=xmax.tolist())
+                out.append(dict(vars=split_vars(rng, x0, layouts[k % 5]), objective='inv', c=c.tolist(), params=params,
+                                maxvol_kind='given', convergence_check=True, start=start, tolerances=tol))
+    return out
 
 
 def convergence_problem(rng):
@@ -506,6 +663,8 @@ def borderline(prob, rec):
     """the step-size test uses np.linalg.norm, whose float summation order is not modelled: runs in which the test is
     decided by less than 1e-9 relative are not compared"""
     tolx = prob['params'].get('tolx', 1e-4)
+    if tolx == 0:
+        return False          # `rel_stepsize < 0` is false whatever the summation order of the norms is
     nm = rec['norms']
     for k in range(0, len(nm) - 1, 2):
         if nm[k + 1] == 0:
@@ -522,7 +681,10 @@ def run(ctx):
                 '(scalars, 1-D and 2-D arrays), scalar/per-variable/default bounds, move limits incl. 0, default/reachable/unreachable '
                 'volume targets, objectives sum c/x, sum c x^-p, 10 - w.x, sum c exp(-x), sensitivities that are None; classes: small '
                 '(n <= 7), large (8 <= n <= 300: numpy pairwise summation), large-gradient (F19), malformed (positive gradients, None state, l2init <= l1init, '
-                'maxit = 0, start outside the box); every recorded signal state at every response(), every warning and the final states '
+                'maxit = 0, start outside the box), convergence (sum c/x, feasible start), convergence-stress (48 deliberate sum c/x problems on every run: start '
+                'volume above / below / at maxvol so that the objective must rise during the move-limited steps, move 0.05 / 0.2, tolerances default / '
+                'tolf=0 / tolf=0,tolx=0 with 40 iterations / tight, interior and bound-clipped optima, 1-4 signals incl. scalars and 2-D; the oracle '
+                'demands the final design within 2e-3 of the analytic (KKT) optimum and its volume at maxvol); every recorded signal state at every response(), every warning and the final states '
                 'are compared bit-exactly (binary64) with the Coq model; a case is non-trivial when at least one design was written back; '
                 'distinct by the full problem description')
     ctx.assumptions += [
@@ -560,6 +722,23 @@ def run(ctx):
     if not gen_ok:
         ctx.violation('proof', 'pymoto/routines.py', 'generated minimize_oc pieces equal Model/OC.v', 'translator/bridge',
                       dict(error=err[-3000:]), theorem='BridgeC17.OCBridge')
+    # ---- (T) pymoto/utils.py: the helpers that build the design vector, against the typed model (dtype of every operand)
+    import gen_utils
+    ok2, err2 = True, ''
+    try:
+        p = ctx.write_gen('UtilsGen.v', gen_utils.generate(vlib.REPO))
+        ok2, _, err2 = vlib.compile_file(ctx, p, 'gen:UtilsGen.v (translated from pymoto/utils.py) compiles', 'translator')
+    except py2coq.Unsupported as e:
+        ctx.obligation('gen:UtilsGen.v translation of pymoto/utils.py', 'translator', False, str(e))
+        ok2, err2 = False, str(e)
+    if ok2:
+        bp = os.path.join(ctx.bridge_dir, 'UtilsBridge.v')
+        ok2, _, err2 = vlib.compile_file(ctx, bp, 'bridge:UtilsBridge (generated _concatenate_to_array / _split_from_array = typed model of Model/MMAvars.v '
+                                         '= Model/Concat.v without dtypes; the generated concatenation is float64 for entries of every dtype)', 'bridge')
+    if not ok2:
+        ctx.violation('proof', 'pymoto/utils.py', 'generated _concatenate_to_array / _split_from_array equal the typed model of Model/MMAvars.v '
+                      '(result float64 whatever the dtypes of the entries) and Model/Concat.v', 'translator/bridge', dict(error=err2[-3000:]),
+                      theorem='BridgeC17.UtilsBridge.gen_concat_dtype_float64')
     vlib.check_props(ctx)
 
     rng = np.random.default_rng(ctx.seed)
@@ -586,6 +765,10 @@ def run(ctx):
         problems.append(('large', gen_problem(rng, 'large', not ctx.quick())))
     for _ in range(nmal):
         problems.append(('malformed', gen_problem(rng, 'malformed', not ctx.quick())))
+    # initial states of every kind: Python int / float, numpy int32 / int64 / float32 / float64 scalars and arrays, alone and mixed
+    for nums, cnt in (('int', 40), ('mixed', 30), ('f32', 10)) if ctx.quick() else (('int', 200), ('mixed', 150), ('f32', 50)):
+        for _ in range(cnt):
+            problems.append((nums + '-states', gen_problem(rng, 'small', not ctx.quick(), state_nums=nums)))
     for _ in range(10 if ctx.quick() else 40):
         lp = gen_problem(rng, 'small', False)
         if lp['objective'] in ('inv', 'pow', 'exp'):
@@ -598,10 +781,31 @@ def run(ctx):
         if cp is not None:
             problems.append(('convergence', cp))
             k += 1
+    for cp in convergence_stress(rng):
+        problems.append(('convergence-stress', cp))
+        ctx.count('convergence-stress:' + cp['start'] + ':' + cp['tolerances'])
 
+    import pymoto.utils as putils
+    DT = {'int32': 'MMAvars.I32', 'int64': 'MMAvars.I64', 'float32': 'MMAvars.F32', 'float64': 'MMAvars.F64'}
     checks, labels, hits = [], [], []
+    tchecks, tlabels = [], []
     sum_checks = []
     for cls, prob in problems:
+        # the design vector as pymoto.utils._concatenate_to_array builds it from the initial states (dtype, values, indices)
+        try:
+            tv, tc = putils._concatenate_to_array([build_state(v) for v in prob['vars']])
+            tv = np.asarray(tv)
+            tdt = DT.get(tv.dtype.name)
+            texpr = (f'tconcat_ok [{"; ".join(ts_var(v) for v in prob["vars"])}] false {tdt or "MMAvars.I32"} {fl([float(t) for t in tv])} '
+                     f'[{"; ".join(str(int(t)) for t in tc)}]%nat' + ('' if tdt else ' && false'))
+            tobs = dict(dtype=tv.dtype.name, values=[float(t) for t in tv], cum=[int(t) for t in tc])
+        except ValueError:
+            texpr = f'tconcat_ok [{"; ".join(ts_var(v) for v in prob["vars"])}] true MMAvars.F64 [] []'
+            tobs = dict(error='ValueError')
+        tchecks.append(texpr)
+        tlabels.append((cls, prob, tobs))
+        for v in prob['vars']:
+            ctx.count('state_kind=' + ('none' if v['kind'] == 'none' else v.get('num') or ('pyfloat' if v['kind'] == 'scalar' else 'f64')))
         rec = run_impl(pym, prob)
         if borderline(prob, rec):
             ctx.count('discarded:borderline step-size test')
@@ -631,7 +835,7 @@ def run(ctx):
         ctx.count('warned' if any(rec['warns']) else 'no-warning')
         errc = {None: 0, 'ValueError': 1, 'NameError': 2, 'Timeout': 3}.get(rec['err'], 9)
         pr, mv = coq_params(prob)
-        vars_c = psl([canon_state(build_state(v)) for v in prob['vars']])
+        vars_c = '[' + '; '.join(ps_var(v) for v in prob['vars']) + ']'
         obs = []
         for k2 in range(R):
             sens = rec['sens'][k2] if k2 < S else []
@@ -676,6 +880,10 @@ def run(ctx):
     fsum, esum = vlib.run_cases(ctx, 'npsum', HEADER, sum_checks, chunk=150)
     if esum:
         errs.append(esum)
+    ftc, etc_ = vlib.run_cases(ctx, 'tconcat', HEADER, tchecks, chunk=150)
+    if etc_:
+        errs.append(etc_)
+    ctx.evaluations += len(tchecks)
     err = '\n'.join(errs)
     ctx.obligation('correspondence:case files evaluated', 'correspondence', not err, err)
     if err:
@@ -683,6 +891,11 @@ def run(ctx):
     for idx in fsum[:5]:
         ctx.violation('correspondence', 'numpy.sum', 'np_sum model == numpy.sum', 'summation order', dict(check=sum_checks[idx][:3000]),
                       note='the pairwise summation model no longer reproduces numpy.sum bit for bit')
+    for idx in ftc[:10]:
+        cls, prob, tobs = tlabels[idx]
+        ctx.violation('correspondence', '_concatenate_to_array', 'typed model == implementation (dtype, values, cumulative indices of the design vector)',
+                      cls, dict(problem=prob, observed=tobs, coq_check=tchecks[idx][:3000]),
+                      note='the design vector built from the initial states differs from the typed model (float64, every entry converted once)')
     for idx in sorted(failing)[:20]:
         cls, prob, obs = labels[idx]
         ctx.violation('correspondence', 'minimize_oc', 'model == implementation (bit-exact trajectory)', prob.get('malformed', cls),
